@@ -722,6 +722,35 @@ func (s *DB) getHistoricRootsAndNodes(
 			}
 		}
 	}
+	// Nodes are named by their content, so a node that an old version
+	// dropped can be in use again by a version that is kept (the table went
+	// back to an earlier content). Never delete what a kept version refers to.
+	keep := func(m *mast.Mast) error {
+		return m.DiffLinks(ctx, nil, func(removed bool, link interface{}) (bool, error) {
+			if ls, ok := link.(string); ok && !removed {
+				delete(candidateBlocks, ls)
+			}
+			return true, nil
+		})
+	}
+	if len(candidateBlocks) > 0 {
+		if err := keep(s.crdt.Mast); err != nil {
+			return nil, nil, err
+		}
+		for name, root := range rootCacheByName {
+			if _, ok := candidateRoots[name]; ok {
+				continue
+			}
+			name := name
+			kept, err := crdt.Load(ctx, s.crdt.Config, &name, *root)
+			if err != nil {
+				return nil, nil, err
+			}
+			if err := keep(kept.Mast); err != nil {
+				return nil, nil, err
+			}
+		}
+	}
 	nodes = make([]string, 0, len(candidateBlocks))
 	for k := range candidateBlocks {
 		nodes = append(nodes, k)
